@@ -116,7 +116,10 @@ def render_tree(tree, in_options):
             L.append("_out = copy_file('out_%d.txt', 'in.txt')" % i)
             L.append("_g = build_step('gen_%d.txt', cmd=['gen', build_step.output, '--', "
                      "build_step.input], files=['in.txt'])" % i)
-            L.append("default(_out, _g)")
+            # an input named by a plain string in extra_deps= is an input path like any other
+            L.append("_x = build_step('xdep_%d.txt', cmd=['gen', build_step.output, '--', build_step.input], "
+                     "files=['in.txt'], extra_deps=['xd.txt'])" % i)
+            L.append("default(_out, _g, _x)")
             L.append("_rec['paths'] = [_out.path.suffix, _out.path.root.name, "
                      "_out.creator.file.path.suffix, _out.creator.file.path.root.name]")
         if n['parent'] is None:
@@ -129,6 +132,7 @@ def render_tree(tree, in_options):
         name = 'options.bfg' if in_options else 'build.bfg'
         files[os.path.join(n['dir'], name)] = '\n'.join(L) + '\n'
         files[os.path.join(n['dir'], 'in.txt')] = 'content of node %d\n' % i
+        files[os.path.join(n['dir'], 'xd.txt')] = 'extra dependency of node %d\n' % i
         if n['kids']:
             sd = os.path.join(n['dir'], 'shared')
             files[os.path.join(sd, name)] = (
@@ -246,6 +250,19 @@ def _tree_shard(arg):
                     for i in s['inputs']:
                         if not i.startswith(pr.src + '/'):
                             viol.append(('input-outside-srcdir', desc, i))
+            # the string given to extra_deps= names the file next to the script that gave it
+            for nd in nodes:
+                proj.modify(os.path.join(pr.src, nd['dir'], 'xd.txt'))
+                rc, out, xrecs = pr.run([])
+                n += 1
+                remade = sorted(os.path.relpath(o, pr.bld) for st in proj.steps_of(xrecs) for o in st['outputs'])
+                want = [os.path.normpath(os.path.join(nd['dir'], 'xdep_%d.txt' % nd['id']))]
+                # (build_step outputs of submodules land in the top build directory: known finding;
+                # compare by file name)
+                if rc != 0 or [os.path.basename(x) for x in remade] != [os.path.basename(w) for w in want]:
+                    viol.append(('extra_deps-string-misresolved', desc,
+                                 "script %d gives extra_deps=['xd.txt']: after modifying %s the build re-made %r, "
+                                 'expected %r' % (nd['id'], os.path.join(nd['dir'], 'xd.txt'), remade, want)))
     shutil.rmtree(root, ignore_errors=True)
     return viol, n
 
